@@ -36,6 +36,9 @@ ASSUMPTIONS = [
     "non-2xx JSON responses carry CouchDB's {error, reason} members (otherwise do_request leaks a KeyError: modelled, excluded by hypothesis)",
     "urllib3 / json / WeakValueDictionary behave as documented; dropping the last strong reference removes the cache entry (gc.collect())",
     "interleaving granularity is one SDK call (its requests are not interleaved with the external writer's)",
+    "which of the two transcriptions of discard()'s bookkeeping (pinned `del` / patched `pop`) applies is extracted from the source "
+    "by ast on every run; the theorems about discard (atomicity, bookkeeping, map refinement) are about the patched one — on the "
+    "pinned tree they are contradicted by the recorded known finding (c16_pinned_discard_phantom)",
 ]
 
 BASE = "http://couch.test:5984"
@@ -487,16 +490,6 @@ def gen_histories(ctx: C.Ctx, rng: random.Random):
         ids = rng.sample(IDS_WIDE, n_ids)
         hist.append((ids, random_macros(rng, n_ids, rng.randint(4, 24), rng.choice([0.0, 0.15, 0.4])), rng.random() < 0.5))
     return hist, n_ex, n_grid, desc
-
-
-def compare(impl_res, model_out, ops, start, where) -> Optional[C.Disagreement]:
-    for k, (r, m) in enumerate(zip(impl_res, model_out)):
-        m = canon_model(m)
-        if r != m:
-            part = "outcome" if r[0] != m[0] else ("request log" if r[1] != m[1] else "state")
-            return C.Disagreement(f"{where}: {part} after {ops[k]}", ops[: k + 1],
-                                  m if part != "state" else {"model_state": m[2]}, r if part != "state" else {"impl_state": r[2]})
-    return None
 
 
 def quote_cases(tier: str):
